@@ -215,6 +215,55 @@ func EncBytes(data []byte) ([]byte, error) {
 	return b, nil
 }
 
+// Malform makes the reference encoder write ONE bytes/string/Bool leaf (the Target-th one met, counting from 1) in a
+// non-canonical or invalid way: inputs for the decoders that the schema semantics refuses (or accepts although no encoder
+// writes them). Target 0 = off; Seen counts the leaves of the last encoding.
+var Malform MalformPlan
+
+type MalformPlan struct {
+	Target, Kind, Seen int
+}
+
+func (m *MalformPlan) hit() bool {
+	m.Seen++
+	return m.Target != 0 && m.Seen == m.Target
+}
+
+// malformedBytes: kind%5 = 0: prefix byte 255 used like the long form (255, 3 length bytes); 1: the long form for a
+// string that has a short form (254, 3 length bytes: non-canonical, accepted by decoders); 2: non-zero padding bytes
+// (ignored by decoders); 3: first byte 255 in place of the short length; 4: long form whose length runs past the data
+func malformedBytes(data []byte, kind int) []byte {
+	n := len(data)
+	long := func(first byte, n int) []byte { return []byte{first, byte(n), byte(n >> 8), byte(n >> 16)} }
+	var b []byte
+	switch kind % 5 {
+	case 0:
+		b = append(long(255, n), data...)
+	case 1:
+		b = append(long(254, n), data...)
+	case 2:
+		b, _ = EncBytes(data)
+		head := 1
+		if n >= 254 {
+			head = 4
+		}
+		for i := head + n; i < len(b); i++ {
+			b[i] = byte(kind/5%255) + 1
+		}
+		return b
+	case 3:
+		b, _ = EncBytes(data)
+		b[0] = 255
+		return b
+	default:
+		b = append(long(254, n+1+kind/5%1000), data...)
+	}
+	for len(b)%4 != 0 {
+		b = append(b, 0)
+	}
+	return b
+}
+
 // Present reports whether conditional field f is present given the `#` fields seen so far.
 func Present(f *Field, env map[string]uint64) (bool, error) {
 	if !f.HasCond {
@@ -283,10 +332,28 @@ func (s *Schema) Encode(t *Ty, v *Val) ([]byte, error) {
 		if v.K != VRaw {
 			return nil, bad
 		}
+		if Malform.hit() {
+			return malformedBytes(v.B, Malform.Kind), nil
+		}
 		return EncBytes(v.B)
 	case KBool:
 		if v.K != VBool {
 			return nil, bad
+		}
+		if Malform.hit() {
+			m := uint32(0xbc799737)
+			if v.Bool {
+				m = 0x997275b5
+			}
+			switch Malform.Kind % 3 {
+			case 0:
+				m ^= 1 << uint(Malform.Kind/3%32)
+			case 1:
+				m = uint32(Malform.Kind) * 2654435761
+			default: // the magic in big-endian byte order
+				m = m>>24 | m>>8&0xff00 | m<<8&0xff0000 | m<<24
+			}
+			return le32(m), nil
 		}
 		if v.Bool {
 			return le32(0x997275b5), nil
